@@ -11,7 +11,8 @@ LEVEL = 'exploration'
 SHARD_TIMEOUT = {'quick': 900, 'thorough': 7200}
 RULE = ('case = one program: IT with a legal (firstcond, mask) [all 15x15 minus the UNPREDICTABLE AL forms], NZCV (all 16), '
         'then the block\'s 1-4 instructions drawn from {16-bit ALU that would set flags, 32-bit ALU, load, branch in the '
-        'last slot}, optionally an exception at slot k in {SVC, UDF, alignment-faulting LDR} with an ARM or Thumb handler '
+        'last slot (B, or BX/BLX/POP/LDR/MOV to the PC into ARM or Thumb code)}, optionally an exception at slot k in {SVC, UDF, '
+        'alignment-faulting LDR, WFI trapped to Hyp mode by HCR.TWI} with an ARM or Thumb handler '
         'that performs the standard return; EVERY step (incl. entry and return) is compared location-by-location with '
         'the reference step from the same snapshot, and ITSTATE must be 0 when the block is finished; plus it_advance() '
         'for all 256 ITSTATE values. non-trivial = at least one slot executed and one skipped, or an exception taken; '
@@ -87,21 +88,29 @@ def run_shard(spec):
 def run_program(ls, rng, fc, mask, nzcv):
     from vf import scen, machine as M, observe
     n = block_len(mask)
-    exc = rng.choice([None, None, 'svc', 'udf', 'abort'])
+    exc = rng.choice([None, None, 'svc', 'udf', 'abort', 'hyptrap'])
     slot = rng.randrange(n)
     te = rng.randrange(2)
-    ctx = ls.ctx(rng.choice([('v7-pmsa-r', 'off'), ('v6-pmsa-sec', 'off'), ('v7-vmsa-sec', 'off')]))
+    if exc == 'hyptrap':
+        ctx = ls.ctx(('v7-vmsa-virt', 'off'))       # WFI trapped to Hyp mode by HCR.TWI from Non-secure state
+        te = 1                                      # the emulator implements ERET only in Thumb (T1)
+    else:
+        ctx = ls.ctx(rng.choice([('v7-pmsa-r', 'off'), ('v6-pmsa-sec', 'off'), ('v7-vmsa-sec', 'off')]))
     code = scen.CODE
     regs = [rng.getrandbits(32) for _ in range(15)]
     regs[6] = 0x1000                         # load base (aligned)
     regs[13] = 0x7000
     desc = scen.prepare(ctx, rng, 't16', 0xBF00 | (fc << 4) | mask, mode=rng.choice(['svc', 'usr', 'sys', 'irq']), itpos='out',
-                        nzcv=nzcv, regs=regs, aif=0b111, e=1 if rng.random() < 0.2 else 0)
+                        nzcv=nzcv, regs=regs, aif=0b111, e=1 if rng.random() < 0.2 else 0, ns=1 if exc == 'hyptrap' else 0)
     cpu = ctx.cpu
     r = cpu.registers
     r.sctlr.v = 0
     r.vbar.value = 0
     r.sctlr.te = te
+    if exc == 'hyptrap':
+        r.hcr.twi = 1
+        r.hvbar = 0
+        r.hsctlr.te = te
     if ctx.cfg['arch_version'] >= 7:
         r.sctlr.u = 1
     body = bytearray()
@@ -112,6 +121,8 @@ def run_program(ls, rng, fc, mask, nzcv):
                 body += (0xDF00 | rng.getrandbits(8)).to_bytes(2, 'little')
             elif exc == 'udf':
                 body += (0xDE00 | rng.getrandbits(8)).to_bytes(2, 'little')
+            elif exc == 'hyptrap':
+                body += (0xBF30).to_bytes(2, 'little')      # WFI
             else:
                 body += (0x6835).to_bytes(2, 'little')      # LDR r5,[r6] with r6 unaligned and SCTLR.A = 1
                 r.sctlr.a = 1
@@ -162,11 +173,18 @@ def run_program(ls, rng, fc, mask, nzcv):
     else:
         for vec, imm in ((0x04, 0), (0x08, 0), (0x10, 6)):
             M.poke(cpu, vec, (0xF3DE).to_bytes(2, 'little') + (0x8F00 | imm).to_bytes(2, 'little'))   # SUBS PC, LR, #imm
+    if exc == 'hyptrap':
+        # Hyp trap vector: ERET back to the trapped WFI (the harness clears HCR.TWI once Hyp mode is entered, standing in
+        # for the handler's MCR, which the emulator does not implement)
+        if te == 0:
+            M.poke(cpu, 0x14, (0xE160006E).to_bytes(4, 'little'))
+        else:
+            M.poke(cpu, 0x14, (0xF3DE).to_bytes(2, 'little') + (0x8F00).to_bytes(2, 'little'))
     desc.update(program=bytes(body[:12]).hex(), slots=kinds, exc=exc, slot=slot, te=te, firstcond=fc, mask=mask, nzcv=nzcv)
     executed = skipped = 0
     trace = []
     took = False
-    for stepno in range(n + 4):
+    for stepno in range(n + 5):
         d2 = dict(desc, step=stepno)
         verdict, info, diffs, pre, post, ref = ls.run(ctx, d2)
         ls.res['sets']['itstates'].add(str((((pre['cpsr'] >> 10) & 0x3F) << 2) | ((pre['cpsr'] >> 25) & 3)))
@@ -180,6 +198,8 @@ def run_program(ls, rng, fc, mask, nzcv):
             skipped += 1
         if (post['cpsr'] & 0x1F) != (pre['cpsr'] & 0x1F):
             took = True
+            if exc == 'hyptrap' and (post['cpsr'] & 0x1F) == 0b11010:
+                ctx.cpu.registers.hcr.twi = 0
         if diffs:
             kinds_ = sorted({lockstep_categ(l, e, g, ref) for l, e, g in diffs})
             ls.report('C08|step|%s|%s' % (info.get('row'), ','.join(kinds_)[:60]),
@@ -187,7 +207,7 @@ def run_program(ls, rng, fc, mask, nzcv):
                                                              '%#x' % g if isinstance(g, int) else str(g)) for l, e, g in diffs[:5]]), d2)
             break
         pc = post['PC']
-        if kinds[-1] not in ('a16', 'a32', 'ld', 'b', 'svc', 'udf', 'abort') and pc >= code + 0x80 and stepno >= n:
+        if kinds[-1] not in ('a16', 'a32', 'ld', 'b', 'svc', 'udf', 'abort', 'hyptrap') and pc >= code + 0x80 and stepno >= n:
             ls.bump('programs_ending_in_interworking_branch')
             break
         if pc >= code + 2 + len(body) - 8 and (post['cpsr'] & 0x1F) == (desc_mode(desc)):
@@ -200,7 +220,7 @@ def run_program(ls, rng, fc, mask, nzcv):
     final_it = ctx.cpu.registers.cpsr.it
     # skipping a trapped instruction by returning to the next one without editing SPSR.IT legitimately leaves the
     # block skewed (UDF, aborting load); only SVC (whose entry advances ITSTATE first) resumes exactly
-    if exc in (None, 'svc') and (ctx.cpu.registers.cpsr.m == desc_mode(desc)) and final_it != 0 and not ls.viol:
+    if exc in (None, 'svc', 'hyptrap') and (ctx.cpu.registers.cpsr.m == desc_mode(desc)) and final_it != 0 and not ls.viol:
         ls.report('C08|itstate-not-retired', dict(desc, final_it=final_it, trace=trace), desc)
     if (executed and skipped) or took:
         ls.res['nontrivial'].add('%d|%d|%d|%s|%s|%d' % (fc, mask, nzcv, ''.join(k[0] for k in kinds), exc, slot))
